@@ -392,17 +392,22 @@ func (index *PatternIndex) searchPairs(ctx *Context, pairs []piPair) (StringSet,
 		// Key not here.  Try next pair.
 		return index.searchPairs(ctx, rest)
 	}
-	ki, have := si[k]
-	if !have {
-		if !AllowPropertyVariables {
-			// Key not here.  Try next pair.
-			return index.searchPairs(ctx, rest)
+	// The key nodes to step to: the one for the key itself and the
+	// one for patterns with a variable in key position.  A pattern
+	// like {"?p":2} matches {"a":2} also when some other pattern
+	// mentions "a" literally.
+	kis := make([]*PatternIndex, 0, 2)
+	if ki, have := si[k]; have {
+		kis = append(kis, ki)
+	}
+	if AllowPropertyVariables && k != "?" {
+		if ki, have := si["?"]; have {
+			kis = append(kis, ki)
 		}
-		// Check for anonymous variable.
-		if ki, have = si["?"]; !have {
-			// Key not here.  Try next pair.
-			return index.searchPairs(ctx, rest)
-		}
+	}
+	if len(kis) == 0 {
+		// Key not here.  Try next pair.
+		return index.searchPairs(ctx, rest)
 	}
 	// We took a step down.
 
@@ -412,69 +417,62 @@ func (index *PatternIndex) searchPairs(ctx *Context, pairs []piPair) (StringSet,
 	next := make([]*PatternIndex, 0, 0)
 	next = append(next, index)
 
-	// First check for Variable.
-	vi := ki.Var
-	if vi != nil {
-		// Yes, there is one.
-		ids.AddAll(vi.Ids)
-		next = append(next, vi)
-	}
-
 	v = picast(ctx, v)
 
-	switch vv := v.(type) {
-	case string:
-		if strings.HasPrefix(vv, "?") {
-			return nil, fmt.Errorf("Can't have variables (%s) in these things", vv)
-		}
-		si := ki.String
-		if si != nil {
-			i, have := si[vv]
-			if have {
-				ids.AddAll(i.Ids)
-				next = append(next, i)
-			}
+	for _, ki := range kis {
+		// First check for Variable.
+		vi := ki.Var
+		if vi != nil {
+			// Yes, there is one.
+			ids.AddAll(vi.Ids)
+			next = append(next, vi)
 		}
 
-	case Map, map[string]interface{}:
-		mi := ki.Map
-		if mi != nil {
-			var mp map[string]interface{}
-			switch v.(type) {
-			case Map:
-				mp = (map[string]interface{})(v.(Map))
-			case map[string]interface{}:
-				mp = vv.(map[string]interface{})
+		switch vv := v.(type) {
+		case string:
+			if strings.HasPrefix(vv, "?") {
+				return nil, fmt.Errorf("Can't have variables (%s) in these things", vv)
+			}
+			si := ki.String
+			if si != nil {
+				i, have := si[vv]
+				if have {
+					ids.AddAll(i.Ids)
+					next = append(next, i)
+				}
 			}
 
-			morePairs := mapToPairs(ctx, mp)
-			morePairs = append(morePairs, rest...)
-			// A pattern like {"k":{}} ends right at the map node.
-			ids.AddAll(mi.Ids)
-			more, err := mi.searchPairs(ctx, morePairs)
-			if err != nil {
-				return nil, err
+		case Map, map[string]interface{}:
+			mi := ki.Map
+			if mi != nil {
+				var mp map[string]interface{}
+				switch v.(type) {
+				case Map:
+					mp = (map[string]interface{})(v.(Map))
+				case map[string]interface{}:
+					mp = vv.(map[string]interface{})
+				}
+
+				morePairs := mapToPairs(ctx, mp)
+				morePairs = append(morePairs, rest...)
+				// A pattern like {"k":{}} ends right at the map node.
+				ids.AddAll(mi.Ids)
+				more, err := mi.searchPairs(ctx, morePairs)
+				if err != nil {
+					return nil, err
+				}
+				ids.AddAll(more)
+				next = append(next, mi)
 			}
-			ids.AddAll(more)
-			next = append(next, mi)
+
+		case []interface{}:
+			// Below, once.
+		default:
+			return nil, fmt.Errorf("can't handle (searchPairs) %v (%T)", v, v)
 		}
+	}
 
-		// mapPairs := mapToPairs(ctx, &vv)
-		// mapPairs := mapToPairs(ctx, mp)
-		// rest = append(mapPairs, rest...)
-
-		// mi := ki.Map
-		// if mi != nil {
-		// 	morePairs := *(mapToPairs(ctx, &vv))
-		// 	morePairs = append(morePairs, rest...)
-		// 	more, err := mi.searchPairs(ctx, &morePairs)
-		// 	if err != nil {
-		// 		return nil, err
-		// 	}
-		// 	ids.AddAll(&more)
-		// 	next = append(next, mi)
-		// }
-	case []interface{}:
+	if vv, is := v.([]interface{}); is {
 		// See mod() above in the same case.
 		morePairs := make([]piPair, 0, len(vv))
 		sorted, err := SortValues(vv)
@@ -486,8 +484,6 @@ func (index *PatternIndex) searchPairs(ctx *Context, pairs []piPair) (StringSet,
 			morePairs = append(morePairs, xPair)
 		}
 		rest = append(morePairs, rest...)
-	default:
-		return nil, fmt.Errorf("can't handle (searchPairs) %v (%T)", v, v)
 	}
 
 	for _, ind := range next {
